@@ -1,24 +1,28 @@
-(* C10 — "longest" for EVERY input, the three code points that are white space and name characters at once included.
-   The collector reads such a code point as a name character when it stands directly after a name character or an additional
-   symbol, and as white space when it stands after white space.  `reading` says this of a written name: a gap does not begin
-   with a name character, and a word behind a non-empty gap does not begin with white space.  The parts the collector
-   returns are such a reading (invariant of the five-state machine, all inputs), a reading is unique (reading_prefix), hence
-   every name written at the position under this rule is a prefix of the collected parts and no bound name written there is
-   longer than the token.  The reading of Complete.v (canon: no overlapping code point in the written name) is a special case.
+(* C10 — "longest" for EVERY input, stated on the text.
+   A name is WRITTEN at a position when the text from there on is its parts -- words (runs of name characters) and additional
+   symbols -- with white space in the gaps, a non-empty gap between two words, and no name character directly after a word
+   (`reading`).  Since the repair of is_name_start_char no white space character is a name character (Shape.name_part_not_ws), so
+   this is the plain rule "gaps are white space, words contain no white space".  The parts the collector returns are such a
+   reading (invariant of the five-state machine, all inputs), a reading is unique (reading_prefix), hence every name written at the
+   position is a prefix of the collected parts and no bound name written there is longer than the token.
+   The invariant is proved for the rule with two more conditions on the edges of a gap (`reading_ctx`: a gap does not begin with a
+   name character, a word behind a non-empty gap does not begin with white space), which is how the machine had to be described
+   while U+1680, U+180E and U+FEFF were white space AND name characters; with disjoint classes the two rules are the same
+   (reading_ctx_iff).  The witnesses at the end show what the ORIGINAL character classes did outside the extra conditions.
    Owner: builder-parse. *)
 From Coq Require Import List NArith Bool Arith Lia.
 From DV Require Import C10.Model C10.Proofs C10.Layout C10.NoLoss C10.Shape C10.Complete C10.Trim.
 Import ListNotations.
 
-(* ------------------------------------------------------------------ the reading rule *)
+(* ------------------------------------------------------------------ the reading_ctx rule *)
 
-Fixpoint reading (R : str) (prev_word : bool) (gs qs : list str) : Prop :=
+Fixpoint reading_ctx (R : str) (prev_word : bool) (gs qs : list str) : Prop :=
   match gs, qs with
   | [], [] => prev_word = true -> starts is_name_part R = false
   | g :: gs', q :: qs' =>
       all_ws g /\ starts is_name_part g = false /\
-      ((word q /\ (g <> [] -> starts is_ws q = false) /\ (prev_word = true -> g <> []) /\ reading R true gs' qs') \/
-       (symp q /\ reading R false gs' qs'))
+      ((word q /\ (g <> [] -> starts is_ws q = false) /\ (prev_word = true -> g <> []) /\ reading_ctx R true gs' qs') \/
+       (symp q /\ reading_ctx R false gs' qs'))
   | _, _ => False
   end.
 
@@ -26,9 +30,9 @@ Lemma Forall_starts : forall (P : N -> bool) g, Forall (fun c => P c = false) g 
 Proof. intros P [|c g] H; [reflexivity|]. inversion H; subst. assumption. Qed.
 
 (* a name without the overlapping code points (Complete.canon) is read this way *)
-Lemma canon_reading : forall R qs gs b, canon R b gs qs -> reading R b gs qs.
+Lemma canon_reading_ctx : forall R qs gs b, canon R b gs qs -> reading_ctx R b gs qs.
 Proof.
-  intros R. induction qs as [|q qs IH]; intros gs b H; destruct gs as [|g gs]; cbn [canon] in H; try contradiction; cbn [reading]; [exact H|].
+  intros R. induction qs as [|q qs IH]; intros gs b H; destruct gs as [|g gs]; cbn [canon] in H; try contradiction; cbn [reading_ctx]; [exact H|].
   destruct H as (Hws & Hnp & Hsh). split; [exact Hws|]. split; [apply Forall_starts; exact Hnp|].
   destruct Hsh as [(Hne & Hw & Hg & Hc)|(c & -> & Hc & Hr)].
   - left. split.
@@ -38,15 +42,15 @@ Proof.
   - right. split; [exists c; split; [reflexivity|exact Hc]|apply IH; exact Hr].
 Qed.
 
-Lemma reading_length : forall R qs gs b, reading R b gs qs -> length gs = length qs.
+Lemma reading_length_ctx : forall R qs gs b, reading_ctx R b gs qs -> length gs = length qs.
 Proof.
-  intros R. induction qs as [|q qs IH]; intros gs b H; destruct gs as [|g gs]; cbn [reading] in H; try contradiction; [reflexivity|].
+  intros R. induction qs as [|q qs IH]; intros gs b H; destruct gs as [|g gs]; cbn [reading_ctx] in H; try contradiction; [reflexivity|].
   destruct H as (_ & _ & [(_ & _ & _ & H)|(_ & H)]); cbn [length]; f_equal; eapply IH; exact H.
 Qed.
 
-Lemma reading_follow : forall R gs qs, reading R true gs qs -> starts is_name_part (weave gs qs ++ R) = false.
+Lemma reading_follow_ctx : forall R gs qs, reading_ctx R true gs qs -> starts is_name_part (weave gs qs ++ R) = false.
 Proof.
-  intros R gs qs H. destruct gs as [|g gs]; destruct qs as [|q qs]; cbn [reading] in H; try contradiction.
+  intros R gs qs H. destruct gs as [|g gs]; destruct qs as [|q qs]; cbn [reading_ctx] in H; try contradiction.
   - cbn. apply H. reflexivity.
   - destruct H as (_ & Hnp & [(_ & _ & Hg & _)|((c & -> & Hc) & _)]).
     + destruct g as [|c0 g]; [exfalso; apply Hg; reflexivity|]. cbn in Hnp. cbn. exact Hnp.
@@ -54,7 +58,7 @@ Proof.
 Qed.
 
 (* where the collector stops: white space that does not begin with a name character, then a character that cannot belong to a name *)
-Definition stop_ok' (R : str) : Prop :=
+Definition stop_ctx (R : str) : Prop :=
   exists tail rest, R = tail ++ rest /\ all_ws tail /\ starts is_name_part tail = false /\
     starts is_ws rest = false /\ starts is_name_part rest = false /\ starts is_add_sym rest = false.
 
@@ -85,20 +89,20 @@ Proof.
     + cbn. apply Hw0. discriminate.
 Qed.
 
-Lemma reading_prefix : forall qs gs parts gaps b R R',
-  reading R b gs qs -> reading R' b gaps parts -> stop_ok' R' ->
+Lemma reading_prefix_ctx : forall qs gs parts gaps b R R',
+  reading_ctx R b gs qs -> reading_ctx R' b gaps parts -> stop_ctx R' ->
   weave gs qs ++ R = weave gaps parts ++ R' ->
   exists parts2 gaps2, parts = qs ++ parts2 /\ gaps = gs ++ gaps2.
 Proof.
   induction qs as [|q qs IH]; intros gs parts gaps b R R' Hq Hp Hstop E.
-  - destruct gs as [|g gs]; [|cbn [reading] in Hq; contradiction]. exists parts, gaps. split; reflexivity.
-  - destruct gs as [|g gs]; [cbn [reading] in Hq; contradiction|].
-    cbn [reading] in Hq. destruct Hq as (Hgws & Hgnp & Hqshape).
+  - destruct gs as [|g gs]; [|cbn [reading_ctx] in Hq; contradiction]. exists parts, gaps. split; reflexivity.
+  - destruct gs as [|g gs]; [cbn [reading_ctx] in Hq; contradiction|].
+    cbn [reading_ctx] in Hq. destruct Hq as (Hgws & Hgnp & Hqshape).
     assert (Hqsh : word q \/ symp q) by (destruct Hqshape as [(H & _)|(H & _)]; [left|right]; exact H).
     assert (Hqg : g <> [] -> starts is_ws q = false).
     { destruct Hqshape as [(_ & H & _)|((c & -> & Hc) & _)]; [exact H|]. intros _. cbn. apply add_sym_not_ws. exact Hc. }
     destruct (part_first q Hqsh) as (c & q' & -> & Hc).
-    destruct parts as [|p parts]; destruct gaps as [|g0 gaps]; cbn [reading] in Hp; try contradiction.
+    destruct parts as [|p parts]; destruct gaps as [|g0 gaps]; cbn [reading_ctx] in Hp; try contradiction.
     + (* the collector has stopped, the name goes on *)
       exfalso. destruct Hstop as (tail & rest & -> & Htws & Htnp & Hr1 & Hr2 & Hr3).
       cbn [weave] in E. rewrite <- !app_assoc in E. rewrite app_nil_l in E.
@@ -125,8 +129,8 @@ Proof.
         destruct (run_unique is_name_part (c :: q') (c0 :: p') (weave gs qs ++ R) (weave gaps parts ++ R')) as [Eq E3].
         { exact (proj2 Hqw). }
         { exact (proj2 Hpw). }
-        { apply reading_follow. exact Hqc. }
-        { apply reading_follow. exact Hpc. }
+        { apply reading_follow_ctx. exact Hqc. }
+        { apply reading_follow_ctx. exact Hpc. }
         { exact E2. }
         inversion Eq; subst. destruct (IH gs parts gaps true R R' Hqc Hpc Hstop E3) as (parts2 & gaps2 & -> & ->).
         exists parts2, gaps2. split; reflexivity.
@@ -265,7 +269,7 @@ Qed.
 
 End Step.
 
-(* ------------------------------------------------------------------ from the invariant to a reading of the input *)
+(* ------------------------------------------------------------------ from the invariant to a reading_ctx of the input *)
 
 Lemma Forall2_length' : forall A B (R : A -> B -> Prop) l1 l2, Forall2 R l1 l2 -> length l1 = length l2.
 Proof. intros A B R l1 l2 H. induction H; [reflexivity|cbn; f_equal; assumption]. Qed.
@@ -276,17 +280,17 @@ Proof.
   destruct k as [|k]; [assumption|]. cbn [nth]. apply IHForall2. cbn in Hk. lia.
 Qed.
 
-(* the conditions from which a reading is built *)
-Lemma reading_build : forall R gs ps b,
+(* the conditions from which a reading_ctx is built *)
+Lemma reading_build_ctx : forall R gs ps b,
   Forall all_ws gs -> Forall2 gap_ok ps gs -> Forall (fun p => word p \/ symp p) ps ->
   (forall k, k < length ps -> word (nth k ps []) ->
      starts is_name_part (weave (skipn (S k) gs) (skipn (S k) ps) ++ R) = false) ->
   (b = true -> starts is_name_part (weave gs ps ++ R) = false) ->
-  reading R b gs ps.
+  reading_ctx R b gs ps.
 Proof.
   intros R. induction gs as [|g gs IH]; intros ps b Hws HG Hsh Hfol Hb; destruct ps as [|p ps]; try (inversion HG; fail).
-  - cbn [reading]. exact Hb.
-  - inversion Hws; subst. inversion HG; subst. inversion Hsh; subst. cbn [reading]. split; [assumption|].
+  - cbn [reading_ctx]. exact Hb.
+  - inversion Hws; subst. inversion HG; subst. inversion Hsh; subst. cbn [reading_ctx]. split; [assumption|].
     match goal with Hx : gap_ok p g |- _ => destruct Hx as [Hg1 Hg2] end. split; [exact Hg1|].
     assert (Hfol' : forall k, k < length ps -> word (nth k ps []) ->
       starts is_name_part (weave (skipn (S k) gs) (skipn (S k) ps) ++ R) = false).
@@ -299,11 +303,11 @@ Proof.
     + right. split; [exact Hs|]. apply IH; try assumption. intro Hf. discriminate Hf.
 Qed.
 
-Theorem collect_reading : forall inp pos parts cps endpos,
+Theorem collect_reading_ctx : forall inp pos parts cps endpos,
   pos < length inp -> is_name_start (ch inp pos) = true -> collect inp pos = (parts, cps, endpos) ->
   exists gaps tail, layout inp pos parts gaps cps /\
     skipn pos inp = weave gaps parts ++ tail ++ skipn endpos inp /\
-    reading (tail ++ skipn endpos inp) false gaps parts /\ stop_ok' (tail ++ skipn endpos inp).
+    reading_ctx (tail ++ skipn endpos inp) false gaps parts /\ stop_ctx (tail ++ skipn endpos inp).
 Proof.
   intros inp pos parts cps endpos Hpos Hstart Hc.
   destruct (collect_shape _ _ _ _ _ Hpos Hstart Hc) as (Hsh & Hs1 & Hs2 & Hs3).
@@ -326,7 +330,7 @@ Proof.
     rewrite skipn_all2 by (rewrite firstn_length; lia). reflexivity. }
   assert (Lg : length gaps = length parts) by (unfold gaps, parts; rewrite !rev_length; exact Hlg).
   exists gaps, g. split; [exact HL|]. split; [exact Hskip|]. split.
-  - apply reading_build.
+  - apply reading_build_ctx.
     + exact (lo_ws _ _ _ _ _ HL).
     + unfold parts, gaps. apply Forall2_rev'. exact HG.
     + exact (shape_of_parts inp parts cps Hsh).
@@ -348,13 +352,13 @@ Qed.
 
 (* ------------------------------------------------------------------ longest, for every input *)
 
-(* a name qs is written at pos with the gaps gs under the reading rule and is followed by R.  Then qs is the prefix of the collected
+(* a name qs is written at pos with the gaps gs under the reading_ctx rule and is followed by R.  Then qs is the prefix of the collected
    parts of the same length; if its normal form is a scope key, the token of the lexer is a bound prefix of at least that many parts
    and the lexer resumes at or after the end of the written name.  No hypothesis on the characters of the input *)
-Theorem longest_written_any : forall keys inp pos parts cps endpos,
+Theorem longest_written_any_ctx : forall keys inp pos parts cps endpos,
   pos < length inp -> is_name_start (ch inp pos) = true -> collect inp pos = (parts, cps, endpos) ->
   (match parts with p :: _ => str_eqb p str_item | [] => false end) = false ->
-  forall gs qs R, qs <> [] -> skipn pos inp = weave gs qs ++ R -> reading R false gs qs ->
+  forall gs qs R, qs <> [] -> skipn pos inp = weave gs qs ++ R -> reading_ctx R false gs qs ->
     firstn (length qs) parts = qs /\
     (mem (flatten_parts qs) keys = true ->
      exists k, length qs <= k <= length parts /\ bound keys parts k /\
@@ -363,14 +367,14 @@ Theorem longest_written_any : forall keys inp pos parts cps endpos,
        pos + length (weave gs qs) <= S (nth (k - 1) cps 0)).
 Proof.
   intros keys inp pos parts cps endpos Hpos Hstart Hc Hitem gs qs R Hne Hwr Hcan.
-  destruct (collect_reading _ _ _ _ _ Hpos Hstart Hc) as (gaps & tail & HL & Hskip & Hcanp & Hstop).
+  destruct (collect_reading_ctx _ _ _ _ _ Hpos Hstart Hc) as (gaps & tail & HL & Hskip & Hcanp & Hstop).
   rewrite Hskip in Hwr. symmetry in Hwr.
-  destruct (reading_prefix qs gs parts gaps false R _ Hcan Hcanp Hstop Hwr) as (parts2 & gaps2 & -> & ->).
+  destruct (reading_prefix_ctx qs gs parts gaps false R _ Hcan Hcanp Hstop Hwr) as (parts2 & gaps2 & -> & ->).
   assert (Hfq : firstn (length qs) (qs ++ parts2) = qs).
   { rewrite firstn_app, Nat.sub_diag, firstn_all. cbn [firstn]. apply app_nil_r. }
   split; [exact Hfq|]. intro Hmem.
   assert (Hlq : 1 <= length qs) by (destruct qs; [contradiction|cbn; lia]).
-  pose proof (reading_length _ _ _ _ Hcan) as Hlgs.
+  pose proof (reading_length_ctx _ _ _ _ Hcan) as Hlgs.
   assert (Hb : bound keys (qs ++ parts2) (length qs)).
   { unfold bound. rewrite Hfq. exact Hmem. }
   assert (Hr : 1 <= length qs <= length (qs ++ parts2)) by (rewrite app_length; lia).
@@ -385,64 +389,174 @@ Proof.
     lia.
 Qed.
 
-(* ------------------------------------------------------------------ what the rule excludes (witnesses) *)
+(* ------------------------------------------------------------------ the plain rule: gaps are white space, words contain no white space *)
+
+Fixpoint reading (R : str) (prev_word : bool) (gs qs : list str) : Prop :=
+  match gs, qs with
+  | [], [] => prev_word = true -> starts is_name_part R = false
+  | g :: gs', q :: qs' =>
+      all_ws g /\
+      ((word q /\ (prev_word = true -> g <> []) /\ reading R true gs' qs') \/
+       (symp q /\ reading R false gs' qs'))
+  | _, _ => False
+  end.
+
+(* where the collector stops: white space, then a character that cannot belong to a name *)
+Definition stop_ok' (R : str) : Prop :=
+  exists tail rest, R = tail ++ rest /\ all_ws tail /\
+    starts is_ws rest = false /\ starts is_name_part rest = false /\ starts is_add_sym rest = false.
+
+Lemma word_no_ws : forall q, word q -> Forall (fun c => is_ws c = false) q.
+Proof. intros q [_ H]. eapply Forall_impl; [|exact H]. intros c Hc. apply name_part_not_ws. exact Hc. Qed.
+
+Lemma all_ws_starts : forall g, all_ws g -> starts is_name_part g = false.
+Proof. intros [|c g] H; [reflexivity|]. inversion H; subst. cbn. apply ws_not_name_part. assumption. Qed.
+
+Lemma word_starts : forall q, word q -> starts is_ws q = false.
+Proof. intros q H. apply Forall_starts. apply word_no_ws. exact H. Qed.
+
+Lemma reading_ctx_iff : forall R qs gs b, reading R b gs qs <-> reading_ctx R b gs qs.
+Proof.
+  intros R. induction qs as [|q qs IH]; intros gs b; destruct gs as [|g gs]; cbn [reading reading_ctx]; try tauto.
+  split.
+  - intros (Hg & [(Hw & Hp & Hr)|(Hs & Hr)]); (split; [exact Hg|]); (split; [apply all_ws_starts; exact Hg|]).
+    + left. split; [exact Hw|]. split; [intros _; apply word_starts; exact Hw|]. split; [exact Hp|apply IH; exact Hr].
+    + right. split; [exact Hs|apply IH; exact Hr].
+  - intros (Hg & _ & [(Hw & _ & Hp & Hr)|(Hs & Hr)]); (split; [exact Hg|]).
+    + left. split; [exact Hw|]. split; [exact Hp|apply IH; exact Hr].
+    + right. split; [exact Hs|apply IH; exact Hr].
+Qed.
+
+Lemma stop_ctx_iff : forall R, stop_ok' R <-> stop_ctx R.
+Proof.
+  intros R. split.
+  - intros (tail & rest & E & Ht & H1 & H2 & H3). exists tail, rest. repeat split; try assumption. apply all_ws_starts. exact Ht.
+  - intros (tail & rest & E & Ht & _ & H1 & H2 & H3). exists tail, rest. repeat split; assumption.
+Qed.
+
+(* a word has no white space, a gap no name character: the rule of Complete.v says the same *)
+Lemma canon_reading : forall R qs gs b, canon R b gs qs <-> reading R b gs qs.
+Proof.
+  intros R qs gs b. split; [intro H; apply reading_ctx_iff; apply canon_reading_ctx; exact H|].
+  revert gs b. induction qs as [|q qs IH]; intros gs b; destruct gs as [|g gs]; cbn [reading canon]; try tauto.
+  intros (Hg & Hsh). split; [exact Hg|]. split.
+  { unfold all_ws in Hg. eapply Forall_impl; [|exact Hg]. intros c Hc. apply ws_not_name_part. exact Hc. }
+  destruct Hsh as [(Hw & Hp & Hr)|((c & -> & Hc) & Hr)].
+  - left. split; [exact (proj1 Hw)|]. split.
+    + destruct Hw as [_ Hw]. rewrite Forall_forall in *. intros c Hin. split; [apply Hw; exact Hin|apply name_part_not_ws; apply Hw; exact Hin].
+    + split; [exact Hp|apply IH; exact Hr].
+  - right. exists c. split; [reflexivity|]. split; [exact Hc|apply IH; exact Hr].
+Qed.
+
+Lemma reading_length : forall R qs gs b, reading R b gs qs -> length gs = length qs.
+Proof. intros R qs gs b H. apply reading_ctx_iff in H. exact (reading_length_ctx _ _ _ _ H). Qed.
+
+(* uniqueness of the reading *)
+Lemma reading_prefix : forall qs gs parts gaps b R R',
+  reading R b gs qs -> reading R' b gaps parts -> stop_ok' R' ->
+  weave gs qs ++ R = weave gaps parts ++ R' ->
+  exists parts2 gaps2, parts = qs ++ parts2 /\ gaps = gs ++ gaps2.
+Proof.
+  intros qs gs parts gaps b R R' H1 H2 H3 E.
+  apply reading_ctx_iff in H1. apply reading_ctx_iff in H2. apply stop_ctx_iff in H3.
+  exact (reading_prefix_ctx qs gs parts gaps b R R' H1 H2 H3 E).
+Qed.
+
+(* for EVERY input the collected parts with the white space between them are a reading of the input from pos on *)
+Theorem collect_reading : forall inp pos parts cps endpos,
+  pos < length inp -> is_name_start (ch inp pos) = true -> collect inp pos = (parts, cps, endpos) ->
+  exists gaps tail, layout inp pos parts gaps cps /\
+    skipn pos inp = weave gaps parts ++ tail ++ skipn endpos inp /\
+    reading (tail ++ skipn endpos inp) false gaps parts /\ stop_ok' (tail ++ skipn endpos inp).
+Proof.
+  intros inp pos parts cps endpos Hpos Hstart Hc.
+  destruct (collect_reading_ctx _ _ _ _ _ Hpos Hstart Hc) as (gaps & tail & HL & Hskip & Hr & Hs).
+  exists gaps, tail. split; [exact HL|]. split; [exact Hskip|]. split; [apply reading_ctx_iff; exact Hr|apply stop_ctx_iff; exact Hs].
+Qed.
+
+(* longest match on the text: a name qs is written at pos with white space gs in its gaps and is followed by R.  Then qs is the prefix of
+   the collected parts of the same length; if its normal form is a scope key, the token of the lexer is a bound prefix of at least that
+   many parts and the lexer resumes at or after the end of the written name.  No hypothesis on the characters of the input, no caveat
+   about how a character is read *)
+Theorem longest_written_any : forall keys inp pos parts cps endpos,
+  pos < length inp -> is_name_start (ch inp pos) = true -> collect inp pos = (parts, cps, endpos) ->
+  (match parts with p :: _ => str_eqb p str_item | [] => false end) = false ->
+  forall gs qs R, qs <> [] -> skipn pos inp = weave gs qs ++ R -> reading R false gs qs ->
+    firstn (length qs) parts = qs /\
+    (mem (flatten_parts qs) keys = true ->
+     exists k, length qs <= k <= length parts /\ bound keys parts k /\
+       (forall j, k < j <= length parts -> ~ bound keys parts j) /\
+       lex_name keys false inp pos = LName (name_new (firstn k parts)) (S (nth (k - 1) cps 0)) /\
+       pos + length (weave gs qs) <= S (nth (k - 1) cps 0)).
+Proof.
+  intros keys inp pos parts cps endpos Hpos Hstart Hc Hitem gs qs R Hne Hwr Hr.
+  apply reading_ctx_iff in Hr.
+  exact (longest_written_any_ctx keys inp pos parts cps endpos Hpos Hstart Hc Hitem gs qs R Hne Hwr Hr).
+Qed.
+
+(* ------------------------------------------------------------------ what the original character classes did (witnesses) *)
 
 Definition k_a : str := [97%N].
 Definition k_b : str := [98%N].
 Definition k_a_b : str := [97; 32; 98]%N.
 Definition k_a_plus_b : str := [97; 43; 98]%N.
 
-(* a gap that begins with U+1680: `a<U+1680>b` is the name `a b` written with the white-space character U+1680 between its words,
-   `a b` is bound, and the token is the unbound word `a<U+1680>b`;  `a+<U+1680> b` is `a+b` written with white space behind the
-   symbol, `a+b` is bound, and the lexer reads a, +, b (the part <U+1680> is trimmed away but still separates: `a+ b`) *)
+(* white space that begins with U+1680: `a<U+1680>b` is the name `a b` written with the white-space character U+1680 between its words,
+   `a b` is bound; the original lexer gave the unbound word `a<U+1680>b`, the repaired one gives `a b`.  `a+<U+1680> b` is `a+b` written
+   with white space behind the symbol, `a+b` is bound; the original collector returned a, +, <U+1680>, b, the look-up text was `a+ b` (the
+   part <U+1680> is trimmed away but still separates) and the lexer read a, +, b; the repaired lexer reads `a+b` *)
 Lemma gap_rule_witness :
-  [97; 5760; 98]%N = weave [[]; [5760%N]] [k_a; k_b] /\ Forall all_ws [[]; [5760%N]] /\
+  [97; 5760; 98]%N = weave [[]; [5760%N]] [k_a; k_b] /\ reading [] false [[]; [5760%N]] [k_a; k_b] /\
   mem (flatten_parts [k_a; k_b]) [k_a; k_b; k_a_b] = true /\
-  lex_name [k_a; k_b; k_a_b] false [97; 5760; 98]%N 0 = LName [97; 5760; 98]%N 3 /\
-  lex_all [k_a; k_b; k_a_b] [97; 5760; 98]%N = Some [KName [97; 5760; 98]%N] /\
-  [97; 43; 5760; 32; 98]%N = weave [[]; []; [5760; 32]%N] [k_a; [43%N]; k_b] /\ Forall all_ws [[]; []; [5760; 32]%N] /\
+  lex_name_chars_orig [k_a; k_b; k_a_b] false [97; 5760; 98]%N 0 = LName [97; 5760; 98]%N 3 /\
+  lex_all_chars_orig [k_a; k_b; k_a_b] [97; 5760; 98]%N = Some [KName [97; 5760; 98]%N] /\
+  lex_all [k_a; k_b; k_a_b] [97; 5760; 98]%N = Some [KName k_a_b] /\
+  [97; 43; 5760; 32; 98]%N = weave [[]; []; [5760; 32]%N] [k_a; [43%N]; k_b] /\ reading [] false [[]; []; [5760; 32]%N] [k_a; [43%N]; k_b] /\
   mem (flatten_parts [k_a; [43%N]; k_b]) [k_a; k_b; k_a_plus_b] = true /\
-  collect [97; 43; 5760; 32; 98]%N 0 = ([k_a; [43%N]; [5760%N]; k_b], [0; 1; 2; 4], 5) /\
+  collect_orig [97; 43; 5760; 32; 98]%N 0 = ([k_a; [43%N]; [5760%N]; k_b], [0; 1; 2; 4], 5) /\
   flatten_parts [k_a; [43%N]; [5760%N]; k_b] = [97; 43; 32; 98]%N /\
-  lex_all [k_a; k_b; k_a_plus_b] [97; 43; 5760; 32; 98]%N = Some [KName k_a; KSym 43; KName k_b] /\
-  lex_all [k_a; k_b; k_a_plus_b] [97; 43; 32; 5760; 98]%N = Some [KName k_a_plus_b].
+  lex_all_chars_orig [k_a; k_b; k_a_plus_b] [97; 43; 5760; 32; 98]%N = Some [KName k_a; KSym 43; KName k_b] /\
+  lex_all_chars_orig [k_a; k_b; k_a_plus_b] [97; 43; 32; 5760; 98]%N = Some [KName k_a_plus_b] /\
+  collect [97; 43; 5760; 32; 98]%N 0 = ([k_a; [43%N]; k_b], [0; 1; 4], 5) /\
+  lex_all [k_a; k_b; k_a_plus_b] [97; 43; 5760; 32; 98]%N = Some [KName k_a_plus_b].
 Proof.
-  repeat split; try reflexivity; repeat (constructor; try reflexivity).
+  assert (Wa : word k_a) by (split; [discriminate|repeat constructor]).
+  assert (Wb : word k_b) by (split; [discriminate|repeat constructor]).
+  repeat split; try reflexivity; try (repeat constructor; fail).
+  - left. split; [exact Wa|]. split; [discriminate|]. split; [repeat constructor|]. left. split; [exact Wb|]. split; [intros _; discriminate|].
+    intros _. reflexivity.
+  - left. split; [exact Wa|]. split; [discriminate|]. split; [constructor|]. right. split; [exists 43%N; split; reflexivity|].
+    split; [repeat constructor|]. left. split; [exact Wb|]. split; [discriminate|]. intros _. reflexivity.
 Qed.
 
-(* a word that begins with U+180E behind a blank: the name `a <U+180E>b` (words `a` and `<U+180E>b`) is bound and written with one blank,
-   the lexer reads the words a, b *)
+(* a word that begins with U+180E behind a blank: with the original classes `<U+180E>b` was a word, the name with the words `a`, `<U+180E>b`
+   could be bound (scope key `a <U+180E>b`) and, written with one blank between its words, was read as the words a, b.  Now U+180E is no
+   name character: there is no such word *)
 Definition k_a_mvs_b : str := [97; 32; 6158; 98]%N.
 Lemma word_rule_witness :
   name_new [k_a; [6158; 98]%N] = k_a_mvs_b /\
-  [97; 32; 6158; 98]%N = weave [[]; [32%N]] [k_a; [6158; 98]%N] /\ word [6158; 98]%N /\
+  [97; 32; 6158; 98]%N = weave [[]; [32%N]] [k_a; [6158; 98]%N] /\ forallb is_name_part_orig [6158; 98]%N = true /\
   mem (flatten_parts [k_a; [6158; 98]%N]) [k_a; k_a_mvs_b] = true /\
-  collect [97; 32; 6158; 98]%N 0 = ([k_a; k_b], [0; 3], 4) /\
-  lex_all [k_a; k_a_mvs_b] [97; 32; 6158; 98]%N = Some [KName k_a; KName k_b].
-Proof.
-  repeat split; try reflexivity; try discriminate; repeat (constructor; try reflexivity).
-Qed.
+  collect_orig [97; 32; 6158; 98]%N 0 = ([k_a; k_b], [0; 3], 4) /\
+  lex_all_chars_orig [k_a; k_a_mvs_b] [97; 32; 6158; 98]%N = Some [KName k_a; KName k_b] /\
+  forallb is_name_part [6158; 98]%N = false.
+Proof. repeat split. Qed.
 
-(* under the rule the same code points are fine: `a<U+1680>  b` is `a<U+1680>`, `b` (trimmed: the name `a b`), and `a+<U+FEFF>b` is
-   `a`, `+`, `<U+FEFF>b` *)
+(* the three code points as white space: `a<U+1680> b` and `a<U+180E>b` are the name `a b`, `a+<U+FEFF>b` is the name `a+b` *)
 Lemma reading_witness :
-  reading [] false [[]; [32; 32]%N] [[97; 5760]%N; k_b] /\
-  name_new [[97; 5760]%N; k_b] = k_a_b /\
-  lex_all [k_a; k_b; k_a_b] [97; 5760; 32; 32; 98]%N = Some [KName k_a_b] /\
-  reading [] false [[]; []; []] [k_a; [43%N]; [65279; 98]%N] /\
-  lex_all [k_a; k_b; [97; 43; 65279; 98]%N] [97; 43; 65279; 98]%N = Some [KName [97; 43; 65279; 98]%N].
+  reading [] false [[]; [5760; 32]%N] [k_a; k_b] /\
+  lex_all [k_a; k_b; k_a_b] [97; 5760; 32; 98]%N = Some [KName k_a_b] /\
+  lex_all [k_a; k_b; k_a_b] [97; 6158; 98]%N = Some [KName k_a_b] /\
+  reading [] false [[]; []; [65279%N]] [k_a; [43%N]; k_b] /\
+  lex_all [k_a; k_b; k_a_plus_b] [97; 43; 65279; 98]%N = Some [KName k_a_plus_b].
 Proof.
+  assert (Wa : word k_a) by (split; [discriminate|repeat constructor]).
+  assert (Wb : word k_b) by (split; [discriminate|repeat constructor]).
   split; [|split; [reflexivity|split; [reflexivity|split; [|reflexivity]]]].
-  - cbn [reading]. split; [constructor|]. split; [reflexivity|]. left.
-    split; [split; [discriminate|repeat constructor]|]. split; [intro H; contradiction H; reflexivity|]. split; [discriminate|].
-    split; [repeat constructor|]. split; [reflexivity|]. left.
-    split; [split; [discriminate|repeat constructor]|]. split; [intros _; reflexivity|]. split; [intros _; discriminate|].
-    intros _. reflexivity.
-  - cbn [reading]. split; [constructor|]. split; [reflexivity|]. left.
-    split; [split; [discriminate|repeat constructor]|]. split; [intro H; contradiction H; reflexivity|]. split; [discriminate|].
-    split; [constructor|]. split; [reflexivity|]. right. split; [exists 43%N; split; reflexivity|].
-    split; [constructor|]. split; [reflexivity|]. left.
-    split; [split; [discriminate|repeat constructor]|]. split; [intro H; contradiction H; reflexivity|]. split; [discriminate|].
+  - cbn [reading]. split; [constructor|]. left. split; [exact Wa|]. split; [discriminate|]. split; [repeat constructor|].
+    left. split; [exact Wb|]. split; [intros _; discriminate|]. intros _. reflexivity.
+  - cbn [reading]. split; [constructor|]. left. split; [exact Wa|]. split; [discriminate|]. split; [constructor|].
+    right. split; [exists 43%N; split; reflexivity|]. split; [repeat constructor|]. left. split; [exact Wb|]. split; [discriminate|].
     intros _. reflexivity.
 Qed.
 
